@@ -378,7 +378,54 @@ func surfSharedPort(mode int, data []byte) surfaceResult {
 	return surfaceResult{reads: 2}
 }
 
+// surfAdText: the input is a list of "Name = value" expression strings (one per line) that a peer puts into an
+// ad; they reach every ClassAd reader, in the plaintext and the encrypted string layout.
+// mode bit0: keyed stream (length-prefixed strings), bits1-2: reader (parse / bounded parse / raw text / skip)
+func surfAdText(mode int, data []byte) surfaceResult {
+	lines := strings.Split(string(data), "\n")
+	if len(lines) > 64 {
+		lines = lines[:64]
+	}
+	keyed := mode&1 != 0
+	var mb kit.MsgBuf
+	mb.Int(int64(len(lines)))
+	for _, l := range lines {
+		if keyed {
+			mb.EncStr(l)
+		} else {
+			mb.Str(l)
+		}
+	}
+	for _, ty := range []string{"Machine", ""} {
+		if keyed {
+			mb.EncStr(ty)
+		} else {
+			mb.Str(ty)
+		}
+	}
+	var wire []byte
+	if keyed {
+		wire = wrapKeyed(mb.B, 1)
+	} else {
+		wire = mb.Frame()
+	}
+	st, c := newReceiver(wire, keyed)
+	m := message.NewMessageFromStream(st)
+	switch (mode >> 1) & 3 {
+	case 0:
+		_, _ = m.GetClassAd(bg)
+	case 1:
+		_, _ = m.GetClassAdWithMaxSize(bg, 1<<20)
+	case 2:
+		_, _ = m.GetClassAdRaw(bg)
+	case 3:
+		_ = m.SkipClassAdRaw(bg)
+	}
+	return surfaceResult{reads: c.Reads + 2}
+}
+
 var surfaces = map[string]func(int, []byte) surfaceResult{
+	"adtext": surfAdText,
 	"framing": surfFraming, "typed": surfTyped, "server": surfServerHandshake, "serveconn": surfServeConn,
 	"client": surfClientHandshake, "text": surfText, "cryptostate": surfCryptoState, "cryptoblob": surfCryptoBlob, "sharedport": surfSharedPort,
 }
@@ -426,7 +473,13 @@ func check(surface string, mode int, data []byte, planted bool) string {
 	if o.Panic != "" {
 		return fmt.Sprintf("surface %s mode %d: panic on a %d-byte input: %s", surface, mode, len(data), firstLines(o.Panic, 12))
 	}
-	if lim := kit.Budget(base, 512, len(data)); o.Alloc > lim {
+	perByte := uint64(512)
+	if surface == "adtext" {
+		// the expression parser keeps about 0.6 KB per pending nesting level ("{{{{...", "{1,{1,..."): linear in the
+		// bytes received, with a larger constant than the framing and typed layers
+		perByte = 2048
+	}
+	if lim := kit.Budget(base, perByte, len(data)); o.Alloc > lim {
 		// the allocation counter is process-wide: goroutines left behind by earlier cases (handshakes
 		// timing out in the background) are charged to whoever runs when they wake. An input that makes the
 		// decoder over-allocate does so every time; noise does not. Two more executions, smallest counts.
